@@ -201,7 +201,7 @@ def build_scenarios(ctx, helper, fixed=None):
                         "thumbprint_input": keys[s["acct_key"]]["thumbprint_input"], "type": "tls-alpn-01"} for s in specs])
     # the expected SAN: the MODEL's to_idna(domain), for domains on which the real to_idna, the model and the
     # independent judge agree (a disagreement is reported there)
-    alabels = idnagen.evaluate(ctx, sorted({(s["domain"], ()) for s in specs}), prefix="domains:")
+    alabels = idnagen.evaluate(ctx, sorted({(s["domain"], ()) for s in specs}), prefix="domains:", refusal_violates=True)
     for i, (s, pi, pm) in enumerate(zip(specs, impl, mods)):
         if not isinstance(pi, dict) or "proof" not in pi:
             ctx.violation("get_proof failed for a tls-alpn-01 challenge: %s" % pi, {"spec": s})
